@@ -86,6 +86,9 @@ def main():
     pfile = os.path.join(out, 'patch.rebased.diff') if os.path.exists(os.path.join(out, 'patch.rebased.diff')) else os.path.join(out, 'patch.diff')
     rc, o = sh('git apply %s' % pfile, scratch)
     applied = rc == 0
+    # rsync restores files with their ORIGINAL (old) mtimes: cargo would take a file patched by the previous seed and now restored for unchanged
+    # and keep the stale object. Every source gets a fresh mtime, so the harness crates are rebuilt from what is really there.
+    sh("find . \\( -name '*.rs' -o -name 'Cargo.toml' \\) -not -path './target/*' -exec touch {} +", scratch)
     if not applied:
         rc, o = sh('patch -p1 --fuzz=3 < %s' % pfile, scratch)
         applied = rc == 0
